@@ -420,6 +420,22 @@ pub fn generate(thorough: bool, seed: u64, out: &mut dyn Write) {
             writeln!(out, "edit {} | {}", base, toks.join(" ")).unwrap();
         }
     }
+    // a mesh record that belongs to no LOD (own random stream; see `run_gap`)
+    {
+        let mut grng = Rng::new(seed, "C07-gap");
+        let n = if thorough { 400 } else { 40 };
+        let mut made = 0;
+        let mut tries = 0;
+        while made < n && tries < 40 * n {
+            tries += 1;
+            let o = GenOpts { max_meshes: 3, max_vertices: 30, combos: WCOMBOS, v5_only: true, canonical: true };
+            let m = gen_model(&mut grng, &o);
+            if m.lodn >= 2 && m.lods[0].meshes.len() >= 2 {
+                writeln!(out, "wgap {}", m.tokens()).unwrap();
+                made += 1;
+            }
+        }
+    }
     // redundant copies, continued (appended: the random stream of the families above is unchanged):
     // the file header's LOD count (`flc`; the reader loops over the `ModelHeader`'s count).  Unedited
     // the writer echoes it; `update_headers` must not depend on it (fixed defect file-lod-count: it
@@ -645,6 +661,46 @@ fn run_inner(kind: &str, file: Vec<u8>, ops: Vec<Op>) -> String {
     }
 }
 
+/// `wgap`: LOD 0 gives up its last mesh (its mesh count is lowered by one in the file: the record
+/// stays in the mesh table, between the ranges of LOD 0 and LOD 1, and belongs to no LOD), then
+/// parse -> write -> parse must return what the first parse returned.
+fn run_gap(mut file: Vec<u8>) -> String {
+    let rd16 = |b: &[u8], o: usize| -> Option<usize> { Some(u16::from_le_bytes([*b.get(o)?, *b.get(o + 1)?]) as usize) };
+    let rd32 = |b: &[u8], o: usize| -> Option<usize> { Some(u32::from_le_bytes([*b.get(o)?, *b.get(o + 1)?, *b.get(o + 2)?, *b.get(o + 3)?]) as usize) };
+    // file header 0x44, declarations 136 bytes each, string block, 56-byte model header, element ids, LODs
+    let lod0 = (|| {
+        let vdc = rd16(&file, 0x0C)?;
+        let mut p = 0x44 + 136 * vdc;
+        let ssz = rd32(&file, p + 4)?;
+        p += 8 + ssz;
+        let eids = rd16(&file, p + 24)?;
+        Some(p + 56 + 32 * eids)
+    })();
+    let Some(lod0) = lod0 else { return "bad-layout".into() };
+    let Some(cnt) = rd16(&file, lod0 + 2) else { return "bad-layout".into() };
+    if cnt < 2 {
+        return "bad-layout".into();
+    }
+    let Some(before) = MDL::from_existing(&file) else { return "none@parse0".into() };
+    if before.lods.first().map(|l| l.parts.len()) != Some(cnt) {
+        return "bad-layout".into();
+    }
+    file[lod0 + 2..lod0 + 4].copy_from_slice(&((cnt - 1) as u16).to_le_bytes());
+    let Some(m) = MDL::from_existing(&file) else { return "none@parse".into() };
+    if m.lods.first().map(|l| l.parts.len()) != Some(cnt - 1) {
+        return "bad-layout".into();
+    }
+    let Some(buf) = m.write_to_buffer() else { return "none@write".into() };
+    let Some(m1) = MDL::from_existing(&buf) else { return "none@reparse".into() };
+    let (a, b) = (mdl_text(&m), mdl_text(&m1));
+    if a == b {
+        "stable".into()
+    } else {
+        let k = a.bytes().zip(b.bytes()).position(|(x, y)| x != y).unwrap_or(a.len().min(b.len()));
+        format!("unstable@{}", k)
+    }
+}
+
 pub fn run(case: &str, input: &str) -> String {
     if input == "skip" {
         return "skip".into();
@@ -654,6 +710,10 @@ pub fn run(case: &str, input: &str) -> String {
         return "bad-case".into();
     }
     let kind = f[0];
+    if kind == "wgap" {
+        let Some(file) = unhex(f[1]) else { return "bad-case".into() };
+        return strip_panic(guarded(move || run_gap(file)));
+    }
     if kind != "edit" && kind != "editr" && kind != "wbytes" && kind != "rawwrite" {
         return "bad-case".into();
     }
